@@ -7,6 +7,7 @@
 //! wrapped in `catch_unwind`: a panic becomes `lmcore.CorePanic`, an `Err` of the
 //! library becomes `lmcore.CoreErr(kind)`.
 use std::io::Cursor;
+use std::io::Read;
 use std::panic::{catch_unwind, AssertUnwindSafe};
 
 use lightmotif::abc::{Alphabet, Background, Dna, Protein, Pseudocounts};
@@ -520,6 +521,44 @@ fn tfm_score(s: PyRef<CoreVal>, pvalue: u64) -> PyResult<u64> {
     })
 }
 
+/// FNV-1a (64 bit) over the decimal text of the f64 bit patterns, each followed by ','
+fn fnv_f64(xs: &[f64]) -> String {
+    let mut h: u64 = 0xcbf29ce484222325;
+    for x in xs {
+        for b in format!("{},", cb64(*x)).bytes() {
+            h ^= b as u64;
+            h = h.wrapping_mul(0x100000001b3);
+        }
+    }
+    format!("sd:{}:{:016x}", xs.len(), h)
+}
+
+/// digest of `to_score_distribution().sf()`
+#[pyfunction]
+fn dist_sf(s: PyRef<CoreVal>) -> PyResult<String> {
+    guard("ScoreDistribution::sf", || match &s.v {
+        V::ScoreD(m) => Ok(fnv_f64(m.to_score_distribution().sf())),
+        V::ScoreP(m) => Ok(fnv_f64(m.to_score_distribution().sf())),
+        _ => Err(bad("dist_sf")),
+    })
+}
+
+/// the derived `PartialEq` of the core types (false for values of different kinds)
+#[pyfunction]
+fn core_eq(a: PyRef<CoreVal>, b: PyRef<CoreVal>) -> PyResult<bool> {
+    guard("PartialEq", || {
+        Ok(match (&a.v, &b.v) {
+            (V::CountD(x), V::CountD(y)) => x == y,
+            (V::CountP(x), V::CountP(y)) => x == y,
+            (V::WeightD(x), V::WeightD(y)) => x == y,
+            (V::WeightP(x), V::WeightP(y)) => x == y,
+            (V::ScoreD(x), V::ScoreD(y)) => x == y,
+            (V::ScoreP(x), V::ScoreP(y)) => x == y,
+            _ => false,
+        })
+    })
+}
+
 // ------------------------------------------------------------------ scanner
 
 /// All hits of a fresh core `Scanner` over (a configured copy of) the sequence, in
@@ -658,14 +697,235 @@ fn read_all(py: Python, format: &str, protein: bool, data: &Bound<PyBytes>) -> P
     })
 }
 
+// ------------------------------------------------------------------ readers over a misbehaving stream
+
+/// A stream that serves at most `chunk` bytes per call and fails on the `fail_at`-th call
+/// (1-based) with an `io::Error` of the given kind ("perm" = raw os error 13, "invalid" =
+/// InvalidData, anything else = Other); with `sticky` every later call fails as well.
+struct FaultyRead {
+    data: Vec<u8>,
+    pos: usize,
+    calls: usize,
+    chunk: usize,
+    fail_at: usize,
+    kind: String,
+    sticky: bool,
+}
+
+impl std::io::Read for FaultyRead {
+    fn read(&mut self, buf: &mut [u8]) -> std::io::Result<usize> {
+        self.calls += 1;
+        if self.calls == self.fail_at || (self.sticky && self.calls > self.fail_at) {
+            return Err(match self.kind.as_str() {
+                "perm" => std::io::Error::from_raw_os_error(13),
+                "invalid" => std::io::Error::new(std::io::ErrorKind::InvalidData, "too many bytes"),
+                _ => std::io::Error::new(std::io::ErrorKind::Other, "read method failed"),
+            });
+        }
+        let n = buf.len().min(self.chunk).min(self.data.len() - self.pos);
+        buf[..n].copy_from_slice(&self.data[self.pos..self.pos + n]);
+        self.pos += n;
+        Ok(n)
+    }
+}
+
+/// Items of the reader of `format` over a `BufReader` around such a stream: like `read_all`, but
+/// the iteration goes on for up to 3 items after the first error, and a panic inside one
+/// `next()` is an item ("panic",) of its own.
+#[pyfunction]
+#[allow(clippy::too_many_arguments)]
+fn read_faulty(
+    py: Python,
+    format: &str,
+    protein: bool,
+    data: &Bound<PyBytes>,
+    chunk: usize,
+    fail_at: usize,
+    kind: &str,
+    sticky: bool,
+) -> PyResult<Vec<PyObject>> {
+    let stream = FaultyRead {
+        data: data.as_bytes().to_vec(),
+        pos: 0,
+        calls: 0,
+        chunk,
+        fail_at,
+        kind: kind.to_string(),
+        sticky,
+    };
+    let mut out: Vec<PyObject> = Vec::new();
+    let panic_item = |py: Python| PyTuple::new_bound(py, &["panic".to_object(py)]).to_object(py);
+    macro_rules! drive {
+        ($mk:expr, $conv:expr) => {{
+            let made = catch_unwind(AssertUnwindSafe(|| $mk));
+            let mut it = match made {
+                Ok(it) => it,
+                Err(_) => {
+                    out.push(panic_item(py));
+                    return Ok(out);
+                }
+            };
+            let mut after_error = 0;
+            let mut seen_error = false;
+            while out.len() < 60 {
+                let r = catch_unwind(AssertUnwindSafe(|| it.next()));
+                match r {
+                    Err(_) => {
+                        out.push(panic_item(py));
+                        seen_error = true;
+                    }
+                    Ok(None) => break,
+                    Ok(Some(Err(e))) => {
+                        out.push(err_item(py, &e));
+                        seen_error = true;
+                    }
+                    Ok(Some(Ok(rec))) => {
+                        let f = $conv;
+                        out.push(f(rec)?);
+                    }
+                }
+                if seen_error {
+                    after_error += 1;
+                    if after_error > 3 {
+                        break;
+                    }
+                }
+            }
+        }};
+    }
+    let b = std::io::BufReader::new(stream);
+    match (format, protein) {
+        ("jaspar", false) => drive!(lightmotif_io::jaspar::read(b), |rec: lightmotif_io::jaspar::Record| {
+            let name = rec.id().to_object(py);
+            let desc = opt(py, rec.description());
+            let cm: CountMatrix<Dna> = rec.into();
+            ok_item(py, "jaspar", name, desc, py.None(), py.None(), Some(V::CountD(cm)))
+        }),
+        ("jaspar16", false) => drive!(lightmotif_io::jaspar16::read::<_, Dna>(b), |rec: lightmotif_io::jaspar16::Record<Dna>| {
+            let name = rec.id().to_object(py);
+            let desc = opt(py, rec.description());
+            ok_item(py, "jaspar", name, desc, py.None(), py.None(), Some(V::CountD(rec.into_matrix())))
+        }),
+        ("uniprobe", false) => drive!(lightmotif_io::uniprobe::read::<_, Dna>(b), |rec: lightmotif_io::uniprobe::Record<Dna>| {
+            let name = rec.id().to_object(py);
+            ok_item(py, "uniprobe", name, py.None(), py.None(), py.None(), Some(V::FreqD(rec.into_matrix())))
+        }),
+        ("transfac", false) => drive!(lightmotif_io::transfac::read::<_, Dna>(b), |rec: lightmotif_io::transfac::Record<Dna>| {
+            let name = opt(py, rec.name());
+            let desc = opt(py, rec.description());
+            let id = opt(py, rec.id());
+            let acc = opt(py, rec.accession());
+            ok_item(py, "transfac", name, desc, id, acc, rec.to_counts().map(V::CountD))
+        }),
+        _ => return Err(CoreErr::new_err("format")),
+    }
+    Ok(out)
+}
+
+// ------------------------------------------------------------------ lazy readers over a shared stream
+
+/// An in-memory file shared by several readers (like one Python file object handed to several
+/// `load()` calls): every reader has its own `BufReader` and takes what it reads away from the others.
+#[pyclass(module = "lmcore", unsendable)]
+pub struct Stream {
+    inner: std::rc::Rc<std::cell::RefCell<Cursor<Vec<u8>>>>,
+}
+
+struct SharedRead(std::rc::Rc<std::cell::RefCell<Cursor<Vec<u8>>>>);
+
+impl std::io::Read for SharedRead {
+    fn read(&mut self, buf: &mut [u8]) -> std::io::Result<usize> {
+        self.0.borrow_mut().read(buf)
+    }
+}
+
+type Item = (String, Option<String>, Option<String>, Option<String>, Option<String>, Option<V>);
+
+#[pyclass(module = "lmcore", unsendable)]
+pub struct LazyReader {
+    it: Box<dyn Iterator<Item = Result<Item, lightmotif_io::error::Error>>>,
+}
+
+#[pyfunction]
+fn stream(data: &Bound<PyBytes>) -> Stream {
+    Stream {
+        inner: std::rc::Rc::new(std::cell::RefCell::new(Cursor::new(data.as_bytes().to_vec()))),
+    }
+}
+
+/// what `lightmotif_io::<format>::read(BufReader::new(stream))` is (the constructor may already read)
+#[pyfunction]
+fn lazy_reader(st: PyRef<Stream>, format: &str, protein: bool) -> PyResult<LazyReader> {
+    let b = std::io::BufReader::new(SharedRead(st.inner.clone()));
+    guard("reader constructor", || {
+        let it: Box<dyn Iterator<Item = Result<Item, lightmotif_io::error::Error>>> = match (format, protein) {
+            ("jaspar", false) => Box::new(lightmotif_io::jaspar::read(b).map(|r| {
+                r.map(|rec| {
+                    let name = rec.id().to_string();
+                    let desc = rec.description().map(String::from);
+                    let cm: CountMatrix<Dna> = rec.into();
+                    ("jaspar".to_string(), Some(name), desc, None, None, Some(V::CountD(cm)))
+                })
+            })),
+            ("jaspar16", false) => Box::new(lightmotif_io::jaspar16::read::<_, Dna>(b).map(|r| {
+                r.map(|rec| {
+                    let name = rec.id().to_string();
+                    let desc = rec.description().map(String::from);
+                    ("jaspar".to_string(), Some(name), desc, None, None, Some(V::CountD(rec.into_matrix())))
+                })
+            })),
+            ("uniprobe", false) => Box::new(lightmotif_io::uniprobe::read::<_, Dna>(b).map(|r| {
+                r.map(|rec| {
+                    let name = rec.id().to_string();
+                    ("uniprobe".to_string(), Some(name), None, None, None, Some(V::FreqD(rec.into_matrix())))
+                })
+            })),
+            ("transfac", false) => Box::new(lightmotif_io::transfac::read::<_, Dna>(b).map(|r| {
+                r.map(|rec| {
+                    (
+                        "transfac".to_string(),
+                        rec.name().map(String::from),
+                        rec.description().map(String::from),
+                        rec.id().map(String::from),
+                        rec.accession().map(String::from),
+                        rec.to_counts().map(V::CountD),
+                    )
+                })
+            })),
+            _ => return Err(CoreErr::new_err("format")),
+        };
+        Ok(LazyReader { it })
+    })
+}
+
+/// one `next()` of the reader: None at the end, otherwise an item as in `read_all`
+#[pyfunction]
+fn lazy_next(py: Python, mut r: PyRefMut<LazyReader>) -> PyResult<Option<PyObject>> {
+    let it = &mut r.it;
+    guard("reader next", move || match it.next() {
+        None => Ok(None),
+        Some(Err(e)) => Ok(Some(err_item(py, &e))),
+        Some(Ok((kind, name, desc, id, acc, val))) => Ok(Some(ok_item(
+            py,
+            &kind,
+            opt(py, name.as_deref()),
+            opt(py, desc.as_deref()),
+            opt(py, id.as_deref()),
+            opt(py, acc.as_deref()),
+            val,
+        )?)),
+    })
+}
+
 // ------------------------------------------------------------------ rendering
 
 #[pyfunction]
 fn content(v: PyRef<CoreVal>) -> PyResult<String> {
     guard("content", || {
         Ok(match &v.v {
-            V::CountD(m) => format!("cm:D:{}", rows_u32(m.matrix())),
-            V::CountP(m) => format!("cm:P:{}", rows_u32(m.matrix())),
+            // the number of sequences takes part in the equality of count matrices
+            V::CountD(m) => format!("cm:D:{}:{}", m.sequence_count(), rows_u32(m.matrix())),
+            V::CountP(m) => format!("cm:P:{}:{}", m.sequence_count(), rows_u32(m.matrix())),
             V::FreqD(m) => format!("fm:D:{}", rows_f32(m.matrix())),
             V::FreqP(m) => format!("fm:P:{}", rows_f32(m.matrix())),
             V::WeightD(m) => format!("wm:D:{}:{}", bits(m.background().frequencies()), rows_f32(m.matrix())),
@@ -690,6 +950,8 @@ pub fn init(py: Python, m: &Bound<PyModule>) -> PyResult<()> {
     m.add("CorePanic", py.get_type_bound::<CorePanic>())?;
     m.add("CoreErr", py.get_type_bound::<CoreErr>())?;
     m.add_class::<CoreVal>()?;
+    m.add_class::<Stream>()?;
+    m.add_class::<LazyReader>()?;
     macro_rules! add {
         ($($f:ident),*) => { $( m.add_function(wrap_pyfunction!($f, m)?)?; )* };
     }
@@ -698,7 +960,7 @@ pub fn init(py: Python, m: &Bound<PyModule>) -> PyResult<()> {
         to_weight, bg_new, bg_uniform, weight_bg, rescale, to_scoring_base, to_scoring, scoring_new,
         revcomp, max_score, motif_len, stripe, configure, wrap_of, score, score_positions, scores_len,
         scores_list, scores_max, scores_argmax, scores_threshold, dist_pvalue, dist_score, tfm_pvalue,
-        tfm_score, scan_all, read_all, content
+        tfm_score, scan_all, read_all, content, dist_sf, core_eq, read_faulty, stream, lazy_reader, lazy_next
     );
     Ok(())
 }
